@@ -1,5 +1,7 @@
 import DirectVerif.Lemmas.C06Assemble
 import DirectVerif.Lemmas.C06Seed
+import DirectVerif.Lemmas.C06Round
+import DirectVerif.Lemmas.C06Crop
 /-!
 # C06 — the autocalibration region is fully sampled, centred and of the requested size
 
@@ -146,16 +148,16 @@ theorem disc_mirror_on_grid (rows cols : Nat) (radius : Int) (x y : Nat) (hx : x
 /-- the centre sample is in the disc as soon as the radius is at least one -/
 theorem disc_contains_centre (rows cols : Nat) (radius : Int) (h : 1 ≤ radius) :
     inDisk rows cols radius (rows / 2) (cols / 2) = true := by
-  unfold inDisk sq
+  unfold inDisk MaskGeom.sq
   simp only [Int.sub_self, Int.mul_zero, Int.add_zero, decide_eq_true_eq]
   exact Int.mul_pos (by omega) (by omega)
 
 /-- radius zero (centre fraction below `π / (rows · cols)`): the disc is empty -/
 theorem disc_empty_of_radius_zero (rows cols : Nat) (x y : Nat) : inDisk rows cols 0 x y = false := by
   unfold inDisk
-  have h1 := sq_nonneg ((x : Int) - ((rows / 2 : Nat) : Int))
-  have h2 := sq_nonneg ((y : Int) - ((cols / 2 : Nat) : Int))
-  have h3 : sq 0 = 0 := rfl
+  have h1 := MaskGeom.sq_nonneg ((x : Int) - ((rows / 2 : Nat) : Int))
+  have h2 := MaskGeom.sq_nonneg ((y : Int) - ((cols / 2 : Nat) : Int))
+  have h3 : MaskGeom.sq 0 = 0 := rfl
   simp only [h3, decide_eq_false_iff_not, Int.not_lt]
   omega
 
@@ -270,6 +272,51 @@ theorem magic_width_bounds (g : Gen) (hg : g = .fastmriMagic ∨ g = .cartesianM
   · simp only [numLow]
     exact ⟨(magic_cap _ _).1, fun h => (magic_cap _ _).2.1 (by exact_mod_cast h)⟩
 
+/-- **"fraction times width, rounded"**, float arithmetic included: `int(round(cols * cf))` is within
+`1/2 + cols·cf·2^-53` of the exact product `cols · cf` (`cf = cfNum / cfDen` the exact value of the double; both
+sides multiplied by `2 · 2^53 · cfDen`) -/
+theorem fraction_width_close (cols cfNum cfDen : Nat) (h0 : cols * cfNum ≠ 0) (hd : cfDen ≠ 0) :
+    2 * 2 ^ 53 * (C06Round.roundMul cols cfNum cfDen * cfDen) ≤ 2 * 2 ^ 53 * (cols * cfNum) + 2 ^ 53 * cfDen + 2 * (cols * cfNum) ∧
+    2 * 2 ^ 53 * (cols * cfNum) ≤ 2 * 2 ^ 53 * (C06Round.roundMul cols cfNum cfDen * cfDen) + 2 ^ 53 * cfDen + 2 * (cols * cfNum) :=
+  C06Round.roundFl_close (cols * cfNum) cfDen h0 hd
+
+/-- the sampling budget of the Magic generators, `int(round(cols / acceleration))`, likewise -/
+theorem budget_close (cols accNum accDen : Nat) (h0 : cols * accDen ≠ 0) (hd : accNum ≠ 0) :
+    2 * 2 ^ 53 * (C06Round.roundQuot cols accNum accDen * accNum) ≤ 2 * 2 ^ 53 * (cols * accDen) + 2 ^ 53 * accNum + 2 * (cols * accDen) ∧
+    2 * 2 ^ 53 * (cols * accDen) ≤ 2 * 2 ^ 53 * (C06Round.roundQuot cols accNum accDen * accNum) + 2 ^ 53 * accNum + 2 * (cols * accDen) :=
+  C06Round.roundFl_close (cols * accDen) accNum h0 hd
+
+/-- Python's `round` is a nearest integer and takes the even neighbour on a tie -/
+theorem round_nearest_ties_even (num den q : Nat) (hd : 0 < den) :
+    (2 * (C06Round.roundHalfEven num den * den) ≤ 2 * num + den ∧ 2 * num ≤ 2 * (C06Round.roundHalfEven num den * den) + den) ∧
+    (den % 2 = 0 → C06Round.roundHalfEven (q * den + den / 2) den = if q % 2 = 0 then q else q + 1) :=
+  ⟨C06Round.roundHalfEven_nearest num den hd, C06Round.roundHalfEven_tie q den hd⟩
+
+/-- the whole chain for the FastMRI Random / Equispaced generators: an accepted centre fraction gives a centred block of
+exactly `int(round(cols * cf))` columns -/
+theorem fastmri_acs_count (g : Gen) (hg : g = .fastmriRandom ∨ g = .fastmriEquispaced) (cols : Nat) (p : PairCfg) (isInt : Bool)
+    (hacc : ctorAccepts g p isInt = true) (hle : C06Round.roundMul cols p.cfNum p.cfDen ≤ cols) :
+    (centerMask cols (numLow g cols p)).count true = C06Round.roundMul cols p.cfNum p.cfDen ∧
+    (1 ≤ C06Round.roundMul cols p.cfNum p.cfDen → (centerMask cols (numLow g cols p)).getD (cols / 2) false = true) := by
+  rw [(ctor_selects_branch cols p isInt).1 g hg hacc]
+  exact ⟨acs_count cols _ hle, fun h1 => acs_contains_centre cols _ h1 hle⟩
+
+/-- the Cartesian generators: an accepted line count is the width itself -/
+theorem cartesian_acs_count (g : Gen) (hg : g = .cartesianRandom ∨ g = .cartesianEquispaced) (cols : Nat) (p : PairCfg) (isInt : Bool)
+    (hacc : ctorAccepts g p isInt = true) (hle : C06Round.truncQ p.cfNum p.cfDen ≤ cols) :
+    (centerMask cols (numLow g cols p)).count true = C06Round.truncQ p.cfNum p.cfDen := by
+  rw [(ctor_selects_branch cols p isInt).2 g hg hacc]
+  exact acs_count cols _ hle
+
+/-- 8 · 0.3125 = 2.5 → 2 and 24 · 0.0625 = 1.5 → 2 (ties to even); 25 · 0.08 (a non-representable fraction) → 2;
+round(10 / 4) = 2, round(30 / 4) = 8 -/
+example : C06Round.roundMul 8 5 16 = 2 ∧ C06Round.roundMul 24 1 16 = 2 ∧
+    C06Round.roundMul 25 5764607523034235 72057594037927936 = 2 ∧ C06Round.roundQuot 10 4 1 = 2 ∧ C06Round.roundQuot 30 4 1 = 8 := by
+  decide
+example : ctorAccepts .fastmriRandom { cfNum := 1, cfDen := 8, accNum := 4, accDen := 1, radii := [] } false = true ∧
+    ctorAccepts .cartesianRandom { cfNum := 1, cfDen := 8, accNum := 4, accDen := 1, radii := [] } true = false ∧
+    ctorAccepts .cartesianRandom { cfNum := 4, cfDen := 1, accNum := 4, accDen := 1, radii := [] } false = false := by decide
+
 /-- a two-pair configuration on a 1 × 4 grid (ACS widths 3 and 1) and a stream given by tables -/
 def demoCfg : Cfg Nat where
   gen := .cartesianRandom
@@ -307,6 +354,50 @@ example :
         (·.toOption.isSome) = some true ∧
     (lastAnswer .unchanged .none (tableOps [0, 1] [] []) demoCfg newObj ([] ++ [⟨[1, 4, 2], 0, false⟩])).map
         (·.toOption.isSome) = some true := by decide
+
+/-! ## VariableDensityPoisson with `crop_corner=True` (`Model/C06Crop.lean`)
+
+`acs_subset_mask` above is about `assemble`, which has no crop: it covers VariableDensityPoisson with the default
+`crop_corner=False`.  With `crop_corner=True` the code crops *after* OR-ing the disc:
+
+full statement (does NOT hold on the current tree): for every rows, cols, radius, raster — the disc is a subset of
+`poissonFrame true rows cols radius raster`. -/
+
+open DirectVerif.C06Crop in
+/-- what holds (partial): a disc cell is in the mask iff no crop is requested or the cell lies inside the inscribed
+ellipse — so the ACS is a subset of the mask exactly when the disc does not reach beyond the ellipse -/
+theorem poisson_crop_acs_cell_partial (crop : Bool) (rows cols : Nat) (radius : Int) (raster : List Bool)
+    (hl : raster.length = rows * cols) (k : Nat) (hd : (centeredDisk rows cols radius).getD k false = true) :
+    (poissonFrame crop rows cols radius raster).getD k false = (!crop || (ellipse rows cols).getD k false) :=
+  poissonFrame_disc_cell crop rows cols radius raster hl k hd
+
+open DirectVerif.C06Crop in
+/-- without the crop (the default) every disc cell is in the mask -/
+theorem poisson_uncropped_acs_subset (rows cols : Nat) (radius : Int) (raster : List Bool)
+    (hl : raster.length = rows * cols) (k : Nat) (hd : (centeredDisk rows cols radius).getD k false = true) :
+    (poissonFrame false rows cols radius raster).getD k false = true := by
+  rw [poissonFrame_disc_cell false rows cols radius raster hl k hd]; rfl
+
+open DirectVerif.C06Crop in
+/-- **finding** (current tree): rows = 24, cols = 8, centre fraction 0.5 (radius 5 > cols / 2): the disc cell
+(12, 0) = flat index 96 is returned by `return_acs=True` but cropped out of the mask, whatever was rasterised -/
+theorem poisson_crop_corner_current_violates :
+    (centeredDisk 24 8 5).getD 96 false = true ∧
+    (poissonFrame true 24 8 5 (List.replicate (24 * 8) true)).getD 96 false = false ∧
+    subsetB (centeredDisk 24 8 5) (poissonFrame true 24 8 5 (List.replicate (24 * 8) true)) = false := by decide +kernel
+
+open DirectVerif.C06Crop in
+/-- the minimal repair (crop the rasterised pattern, then OR the disc) restores ACS ⊆ mask for every shape, radius
+and raster -/
+theorem poisson_crop_repaired_acs_subset (crop : Bool) (rows cols : Nat) (radius : Int) (raster : List Bool)
+    (hl : raster.length = rows * cols) (k : Nat) (hd : (centeredDisk rows cols radius).getD k false = true) :
+    (poissonFrameRepaired crop rows cols radius raster).getD k false = true :=
+  poissonFrameRepaired_disc_cell crop rows cols radius raster hl k hd
+
+open DirectVerif.C06Crop in
+/-- hypotheses satisfiable, and a shape where the disc stays inside the ellipse (16 × 16, radius 4): subset holds -/
+example : (centeredDisk 16 16 4).getD (8 * 16 + 8) false = true ∧
+    subsetB (centeredDisk 16 16 4) (poissonFrame true 16 16 4 (List.replicate (16 * 16) false)) = true := by decide +kernel
 
 /-! ## non-vacuity / regression examples -/
 
